@@ -10,6 +10,7 @@ from __future__ import annotations
 
 import gc
 import operator
+import os
 from typing import Any, Dict, List, Optional
 
 from .. import kernel
@@ -381,15 +382,22 @@ def query_var_ids(scenario: Dict, qd: Dict) -> set:
     return out
 
 
-def query_shared_ids(qd: Dict) -> set:
+def query_shared_ids(qd: Dict, scenario: Optional[Dict] = None) -> set:
+    """The shared condition / attribute nodes and sub-query objects a query contains (references are followed)."""
     out = set()
 
     def walk(e):
         if isinstance(e, list):
             if e and e[0] in ("shared",):
-                out.add(("shared", e[1]))
+                if ("shared", e[1]) not in out:
+                    out.add(("shared", e[1]))
+                    if scenario is not None and e[1] < len(scenario.get("shared", [])):
+                        walk(scenario["shared"][e[1]])
             elif e and e[0] == "subq":
-                out.add(("subq", e[1]))
+                if ("subq", e[1]) not in out:
+                    out.add(("subq", e[1]))
+                    if scenario is not None and e[1] < len(scenario.get("subqueries", [])):
+                        walk(scenario["subqueries"][e[1]])
             for x in e:
                 walk(x)
         elif isinstance(e, dict):
@@ -407,7 +415,7 @@ def sharing_between(scenario: Dict, qa: int, qb: int) -> str:
     if qa == qb:
         return "same-query"
     da, db = scenario["queries"][qa], scenario["queries"][qb]
-    if query_shared_ids(da) & query_shared_ids(db):
+    if query_shared_ids(da, scenario) & query_shared_ids(db, scenario):
         return "expression"
     va, vb = query_var_ids(scenario, da), query_var_ids(scenario, db)
     if va & vb:
@@ -513,7 +521,7 @@ def execute_c03(scenario: Dict) -> Dict:
                 same_query_overlap = True
             # a condition node / sub-query object used at more than one place (in both queries, or - for two
             # evaluations of one query - anywhere in it) is evaluated by both live evaluations
-            if query_shared_ids(qd) & query_shared_ids(scenario["queries"][tasks[o].qi]):
+            if query_shared_ids(qd, scenario) & query_shared_ids(scenario["queries"][tasks[o].qi], scenario):
                 expression_overlap = True
         kinds = sorted(
             {
@@ -583,6 +591,7 @@ def execute_c03(scenario: Dict) -> Dict:
             task.diverged = True
             verdicts.append(kernel.verdict("C03.R3", f"task {task.tid} of query {task.qi} raised {end} after {n} results, isolated evaluation: {ref['end']} after {rn}", **features_for(task, end.replace("exc:", "exception:"))))
 
+    held_results = []
     executing = []  # tasks whose generator is currently running (a generator cannot be re-entered)
 
     def step(task: Task, preempt=None) -> bool:
@@ -659,6 +668,8 @@ def execute_c03(scenario: Dict) -> Dict:
             else:
                 mon.phase = "IDLE"
                 mon.fuse = None
+        if os.environ.get("SIM_E_HOLD_RESULTS"):
+            held_results.append(value)
         value = built.norm(value)
         log.add("res", task.tid, value)
         check_result(task, value)
@@ -782,7 +793,7 @@ def execute_c03(scenario: Dict) -> Dict:
                 if (got, end) != (ref["results"], ref["end"]):
                     f = {
                         "task": pseudo.tid,
-                        "shared_node_overlap": any(query_shared_ids(scenario["queries"][qi]) & query_shared_ids(scenario["queries"][tasks[o].qi]) for o in pseudo.overlaps),
+                        "shared_node_overlap": any(query_shared_ids(scenario["queries"][qi], scenario) & query_shared_ids(scenario["queries"][tasks[o].qi], scenario) for o in pseudo.overlaps),
                         "query": qi,
                         "rule_query": False,
                         "overlap": bool(pseudo.overlaps),
